@@ -152,6 +152,7 @@ let parse_op (ws : string list) : map_op =
   | "par_drain" -> OpDrain (nat_of_int 0)                            (* count filled in by the caller *)
   | "par_extend" -> OpExtend (List.map parse_kv3 (rest 2))
   | "par_split" -> OpLen
+  | "serde_de" | "serde_roundtrip" | "serde_set" -> OpLen
   | "sinsert" -> OpSetInsert (z 1, z 2)
   | "sreplace" -> OpSetReplace (z 1, z 2)
   | "stake" -> OpSetTake (z 1)
@@ -708,7 +709,48 @@ let () =
          let pre = parse_dump pre_s and post = parse_dump post_s in
          let tpre = table_of_dump pre and tpost = table_of_dump post in
          let opname = List.hd opws in
-         let is_par = (String.length opname >= 4 && String.sub opname 0 4 = "par_") || opname = "into_par_iter" in
+         let is_serde = String.length opname >= 6 && String.sub opname 0 6 = "serde_" in
+         let is_par = (String.length opname >= 4 && String.sub opname 0 4 = "par_") || opname = "into_par_iter" || is_serde in
+         if opname = "serde_de" then begin
+           let hint = (match List.nth opws 1 with "none" -> None | h -> Some (zs h)) in
+           let err_at = (match List.nth opws 2 with "-" -> None | p -> Some (nat_of_int (int_of_string p))) in
+           let items = List.map parse_kv3 (List.filteri (fun j _ -> j >= 3) opws) in
+           incr c_checked;
+           (match deser_map cfg.backend cfg.tsize cfg.talign cfg.needs_drop rehash_guard_unconditional (hash_of_salt "0" None) hint items err_at with
+            | Fail e -> say "C-MISMATCH %s: model stops with %s" where (err_text e)
+            | Ok (r, evs) ->
+              (match r with
+               | Some t' ->
+                 if ret_s <> "unit" then say "C-MISMATCH %s: model succeeds, impl returned [%s]" where ret_s;
+                 if table_text t' <> dump_text post then say "C-MISMATCH %s: deserialized map: model [%s] impl [%s]" where (table_text t') (dump_text post)
+               | None ->
+                 if ret_s <> "err" then say "C-MISMATCH %s: model reports the input error, impl returned [%s]" where ret_s;
+                 if dump_text pre <> dump_text post then say "A-FAIL %s: a failed deserialization changed the existing map" where);
+              let me = ev_text evs and ie = (if ev_s = "" then "-" else ev_s) in
+              if me <> ie then say "C-MISMATCH %s: events: model [%s] impl [%s]" where me ie);
+           (* level A: last value wins, first key object kept; bounded pre-allocation *)
+           incr a_checked;
+           let fails = (match err_at with Some p -> int_of_nat p <= List.length items | None -> false) in
+           if not fails then begin
+             let want = List.fold_left (fun acc (e : kv) -> insert_like acc e.k_id e.k_stamp e.v_val) [] items in
+             if sorted_kvs want <> sorted_kvs (occupants tpost) then
+               say "A-FAIL %s: deserialized contents are not `last value per key`: expected [%s] got [%s]" where
+                 (String.concat "," (sorted_kvs want)) (String.concat "," (sorted_kvs (occupants tpost)));
+             spec := occupants tpost
+           end;
+           (* the allocation made before the first element is bounded whatever the hint claims *)
+           (match words ev_s with
+            | first :: _ when String.length first > 2 && String.sub first 0 2 = "A:" ->
+              let sz = int_of_string (List.nth (String.split_on_char ':' first) 1) in
+              let bound = 8192 * (int_of_string (string_of_z cfg.tsize)) + 8192 + 64 in
+              if sz > bound then say "A-FAIL %s: pre-allocation of %d bytes for a claimed size hint (bound %d)" where sz bound
+            | _ -> ());
+           bump branch (if fails then "serde_error_path" else "serde_ok_path")
+         end;
+         if opname = "serde_roundtrip" then begin
+           incr a_checked;
+           if ret_s <> "bool 1" then say "A-FAIL %s: serialize + deserialize did not yield an equal map: [%s]" where ret_s
+         end;
          (* rayon operations are judged against the reference map (A) and the invariant (B); the
             delivery order is the scheduler's choice, so there is no step model for them *)
          let op = (match opname, op0 with
@@ -786,7 +828,7 @@ let () =
               if int_of_nat tpre.mask + 1 < cfg.gw && int_of_nat tpre.mask > 0 then bump branch "small_table")
          end else incr c_skipped;
          (* ---- level A ---- *)
-         if do_a && lawful && !spec_valid && opname <> "par_split" then begin
+         if do_a && lawful && !spec_valid && opname <> "par_split" && not is_serde then begin
            incr a_checked;
            let contents = occupants tpost in
            (match ret with
